@@ -15,7 +15,7 @@ PROP = 'C19'
 LEVEL = 'exploration'
 ENGINE = 'E1'
 TECHNIQUE = 'model checking: bounded-exhaustive product enumeration of wavelengths x input forms x units, 5-band rows, and flux/wavelength-solution/mask menus, with relational oracles'
-LEVEL_TEXT = ('every case of the finite menus (wavelength lattice 100 A..30 um x 13 scalar/array/Quantity forms x 2 directions; '
+LEVEL_TEXT = ('every case of the finite menus (wavelength lattice 100 A..30 um x 20 scalar/array/Quantity forms x 2 directions; '
               '{0.5,1,20}^5 band rows x 3 modes; filter_thru impulse-comb pairs x wavelength solutions x dtypes x masks) was executed '
               'against the real functions and every stated relation compared; no case of the bound is sampled or skipped except the counted don\'t-care bands')
 LEVEL_NOTE = ('relations only: the absolute value of the refractive index, of the AB offsets and of the filter response are not asserted; '
